@@ -106,12 +106,14 @@ inline std::vector<int> mask_keys(int mask) {
 constexpr int MAXK = 2;
 
 struct Slot {
-  alignas(64) unsigned char buf[2][sizeof(S)];
+  static constexpr size_t kA = alignof(S);
+  static constexpr size_t kOff = ((sizeof(S) + kA - 1) / kA) * kA + kA;
+  alignas(256) unsigned char buf[kOff + sizeof(S) + 256];
   int cur = 0;
   bool alive = false;
-  S &s() { return *std::launder(reinterpret_cast<S *>(buf[cur])); }
-  void *raw() { return buf[cur]; }
-  void *other() { return buf[cur ^ 1]; }
+  S &s() { return *std::launder(reinterpret_cast<S *>(raw())); }
+  void *raw() { return buf + (cur ? kOff : 0); }
+  void *other() { return buf + (cur ? 0 : kOff); }
 };
 struct World {
   int K = 1;
